@@ -33,6 +33,7 @@ def run(ctx):
     for m in (7, 11, 15, 16):
         unk = {"k": "unk", "m": m}
         shapes = [{"k": "strict", "cnt": 2, "vs": [unk, num]}, {"k": "strict", "cnt": 3, "vs": [unk, num, boo]},
+                  {"k": "strict", "cnt": 1, "vs": [unk, num]}, {"k": "strict", "cnt": 1, "vs": [unk, num, boo]},   # bytes behind the last counted value
                   {"k": "strict", "cnt": 3, "vs": [num, unk, num]},
                   {"k": "obj", "end": True, "ps": [{"key": {"n": 2, "id": 7, "s": ""}, "v": unk}, {"key": {"n": 3, "id": 8, "s": ""}, "v": num}]},
                   {"k": "ecma", "cnt": 2, "end": True, "ps": [{"key": {"n": 2, "id": 7, "s": ""}, "v": unk}, {"key": {"n": 3, "id": 8, "s": ""}, "v": num}]}]
